@@ -25,6 +25,7 @@ class Cfg:
         strip_suffix=(), prefix="", suffix="", zero_cap=False, min_len=None, max_len=None, max_n=None, max_ee=None, max_aer=None,
         casava=False, discard_trimmed=False, discard_untrimmed=False, untrimmed_output=False, too_short_output=False,
         too_long_output=False, demux=False, info_file=False, fasta=False, rename=None,
+        report_minimal=False,   # --report=minimal: the one-line tabular report on stdout must agree with the JSON report
         demux_twice=False, # {name} occurs twice in the output path (every occurrence is replaced)
         side_files=(),     # subset of ("rest", "wildcard"): --rest-file / --wildcard-file, which must not influence anything else
         index=False,       # True: run without --no-index (only for adapter sets for which no index can be built, C09)
@@ -121,6 +122,8 @@ class Cfg:
             g.append(["--info-file", os.path.join(d, "info.tsv")])
         for k in self.side_files:
             g.append(["--%s-file" % k, os.path.join(d, "side.%s.txt" % k)])
+        if self.report_minimal:
+            g.append(["--report=minimal"])
         return g
 
     def ext(self):
@@ -144,6 +147,31 @@ class Cfg:
         argv += list(extra)
         argv.append(os.path.join(d, "in." + self.ext()))
         return argv
+
+
+def oracle_minimal_report(res, paired=False):
+    """--report=minimal: header line + one line of figures; every figure must be the one of the JSON report"""
+    lines = [l for l in (res.get("stdout") or "").split("\n") if l.strip()]
+    rep = res.get("report")
+    if len(lines) < 2 or rep is None:
+        return "minimal report missing on stdout: %r" % lines[:2]
+    head, vals = lines[-2].split("\t"), lines[-1].split("\t")
+    if len(head) != len(vals):
+        return "minimal report: %d column names, %d values" % (len(head), len(vals))
+    row = dict(zip(head, vals))
+    rc, bc = rep["read_counts"], rep["basepair_counts"]
+    z = lambda x: 0 if x is None else x
+    want = {"in_reads": rc["input"], "in_bp": bc["input"], "too_short": z(rc["filtered"].get("too_short")), "too_long": z(rc["filtered"].get("too_long")),
+            "too_many_n": z(rc["filtered"].get("too_many_n")), "out_reads": rc["output"], "w/adapters": z(rc.get("read1_with_adapter")),
+            "qualtrim_bp": z(bc.get("quality_trimmed_read1")), "out_bp": bc.get("output_read1")}
+    if paired:
+        want.update({"w/adapters2": z(rc.get("read2_with_adapter")), "qualtrim2_bp": z(bc.get("quality_trimmed_read2")), "out2_bp": bc.get("output_read2")})
+    for k, v in want.items():
+        if k not in row:
+            return "minimal report lacks column %s" % k
+        if str(v) != row[k]:
+            return "minimal report: %s = %s, the JSON report of the same run says %s" % (k, row[k], v)
+    return None
 
 
 def demux_key(stem, twice):
@@ -241,8 +269,9 @@ def run_impl(cfg, reads, d, rng=None, extra=()):
         code = -1
         err = "%s: %s" % (type(e).__name__, e)
     finally:
+        captured = sys.stdout.getvalue() if hasattr(sys.stdout, "getvalue") else ""
         sys.stdout, sys.stderr = old_out, old_err
-    res = {"exit": code, "error": err, "argv": argv, "files": {}, "report": None, "info": None}
+    res = {"exit": code, "error": err, "argv": argv, "files": {}, "report": None, "info": None, "stdout": captured}
     if code != 0:
         return res
     ext = cfg.ext()
@@ -575,6 +604,8 @@ def rand_cfg(rng, focus=()):
         if f("qual", 0.3):
             c.qcut = rng.choice(["10", "20", "15,10", "0", "5,0", "0,12"])
         c.zero_cap = f("zerocap", 0.1)
+        if rng.random() < (0.35 if c.zero_cap else 0.05):
+            c.qbase = 64   # --quality-base=64: the generated quality characters then encode values from -31 upwards
     c.poly_a = f("polya", 0.15)
     if f("length", 0.2):
         c.length = rng.choice([0, 3, 10, 20, -3, -10])
